@@ -150,18 +150,22 @@ def run(rep, prog, tier):
                 gi = gi or prog.index(g)
                 ok = False
                 a = call_args(n)
-                for cond, pol in gi.guards(n):
-                    for x in walk(cond):
-                        from ..e2 import _negations_above
-                        holds = (pol != _negations_above(cond, x)) if x.get("k") == "BinaryOperator" and x.get("op") in ("!=", "==") else None
-                        # 'ids differ' holds at the call: (a != b) true, or (a == b) false (e.g. 'if(a == b) continue;')
-                        if x.get("k") == "BinaryOperator" and ((x.get("op") == "!=" and holds) or (x.get("op") == "==" and holds is False)):
-                            l, r = strip(x["c"][0]), strip(x["c"][1])
-                            if l.get("callee") == "cell::get_id" and r.get("callee") == "cell::get_id":
-                                objs = {render(call_obj(l)), render(call_obj(r))}
-                                # c2 must be the owner of the face passed
-                                if render(a[0]) .replace("std::shared_ptr{", "").rstrip("}") in objs:
-                                    ok = True
+                from ..model import facts_at
+                def _peel(e_):
+                    e_ = strip(e_)
+                    while e_.get("k") == "ParenExpr" and e_.get("c"):
+                        e_ = strip(e_["c"][0])
+                    return e_
+                # 'ids differ' holds at the call: (a != b) true, or (a == b) false (e.g. 'if(a == b) continue;'); ids may be named
+                # by const locals (expanded by facts_at)
+                for x, truth in facts_at(g, gi, n):
+                    if x.get("k") == "BinaryOperator" and ((x.get("op") == "!=" and truth) or (x.get("op") == "==" and not truth)):
+                        l, r = _peel(x["c"][0]), _peel(x["c"][1])
+                        if l.get("callee") == "cell::get_id" and r.get("callee") == "cell::get_id":
+                            objs = {render(call_obj(l)), render(call_obj(r))}
+                            # c2 must be the owner of the face passed
+                            if render(a[0]) .replace("std::shared_ptr{", "").rstrip("}") in objs:
+                                ok = True
                 if ok:
                     rep.ok("C07.same-cell-excluded", prog, g, n, "call dominated by c1->get_id() != c2->get_id()")
                 else:
